@@ -1379,7 +1379,7 @@ void mmd_export_token_latex(DString * out, const char * source, token * t, scrat
 					print_const("}{");
 					print(temp_note->label_text);
 					print_const("}{");
-					print(temp_note->clean_text);
+					mmd_print_string_latex(out, temp_note->clean_text);
 					print_const("}");
 
 					printf("\\gls{%s}", temp_note->label_text);
@@ -2421,7 +2421,7 @@ void mmd_define_glossaries_latex(DString * out, const char * source, scratch_pad
 		print_const("}{");
 		print(f->note->label_text);
 		print_const("}{");
-		print(f->note->clean_text);
+		mmd_print_string_latex(out, f->note->clean_text);
 		print_const("}\n\n");
 	}
 }
